@@ -45,14 +45,31 @@ type Script struct {
 	// Fast: if this Start fails, go on to the next action at once (an immediate retry loop)
 	// instead of first waiting for Wait and the failed session's close notification.
 	Fast bool `json:"fast,omitempty"`
+	// Sync: the dialer hands the stub one end of a net.Pipe() instead of a unix socket: an
+	// unbuffered connection (what WithDialer/WithConnection users and connection wrappers may
+	// provide) on which every Write of the stub lasts until the harness has read the bytes,
+	// and a drop in the middle of it is a short write.
+	Sync bool `json:"sync,omitempty"`
+	// Chunks: sizes of the reads with which the runtime end takes the stub->runtime stream
+	// (cyclic; empty = as much as there is).
+	Chunks []int `json:"chunks,omitempty"`
+	// HoldMs: cut only: having taken the k-th byte the runtime end stops reading for this
+	// long before it closes the connection.
+	HoldMs int `json:"hold_ms,omitempty"`
 }
 
 // Action is one step of a history. Every action is total: it is legal in every model state.
 type Action struct {
 	// Op: "start", "stop", "wait", "drop" (the proxy closes an established session),
-	// "restart" (Stop immediately followed by Start), "probe".
+	// "restart" (Stop immediately followed by Start), "probe", "bulkstop" / "bulkdrop" (the
+	// plugin issues an UpdateContainers of KB kilobytes from a goroutine of its own - with
+	// Stall the runtime end has stopped reading - and WaitMs later the stub is stopped / the
+	// proxy closes the connection, i.e. while the stub is writing a large frame).
 	Op     string  `json:"op"`
 	Script *Script `json:"script,omitempty"` // start, restart
+	KB     int     `json:"kb,omitempty"`     // bulkstop, bulkdrop
+	Stall  bool    `json:"stall,omitempty"`
+	WaitMs int     `json:"wait_ms,omitempty"`
 }
 
 // C16Case is one history over one stub, plus the delays injected at the two yield points.
@@ -150,7 +167,22 @@ func genScript(t *rapid.T, h handshake) *Script {
 	if s.Kind != "healthy" && !ev.Known(knownD9) {
 		s.Fast = rapid.IntRange(0, 2).Draw(t, "fast") == 0
 	}
+	if s.Kind != "unreachable" {
+		s.Sync = rapid.IntRange(0, 2).Draw(t, "sync") == 0
+		if s.Sync || rapid.IntRange(0, 3).Draw(t, "chunked") == 0 {
+			s.Chunks = rapid.SliceOfN(rapid.OneOf(rapid.IntRange(1, 9), rapid.IntRange(1, 100)), 0, 3).Draw(t, "chunks")
+		}
+		if s.Kind == "cut" {
+			s.HoldMs = rapid.SampledFrom([]int{0, 0, 0, 1, 5}).Draw(t, "hold_ms")
+		}
+	}
 	return s
+}
+
+func genBulk(t *rapid.T, a *Action) {
+	a.KB = rapid.SampledFrom([]int{1, 100, 3000}).Draw(t, "kb")
+	a.Stall = rapid.Bool().Draw(t, "stall")
+	a.WaitMs = rapid.SampledFrom([]int{0, 1, 5, 20}).Draw(t, "wait_ms")
 }
 
 func genC16(t *rapid.T) C16Case {
@@ -158,9 +190,9 @@ func genC16(t *rapid.T) C16Case {
 	if h.err != nil {
 		t.Fatalf("fixture: %v", h.err)
 	}
-	ops := []string{"start", "start", "start", "start", "stop", "stop", "wait", "wait", "drop", "drop", "restart", "restart", "restart", "probe", "probe"}
+	ops := []string{"start", "start", "start", "start", "start", "stop", "stop", "wait", "wait", "drop", "drop", "restart", "restart", "restart", "probe", "probe", "bulkstop", "bulkstop", "bulkdrop"}
 	if ev.Known(knownD9) {
-		ops = []string{"start", "start", "start", "start", "stop", "stop", "wait", "wait", "drop", "drop", "probe", "probe"}
+		ops = []string{"start", "start", "start", "start", "start", "stop", "stop", "wait", "wait", "drop", "drop", "probe", "probe", "bulkstop", "bulkstop", "bulkdrop"}
 	}
 	var c C16Case
 	// a history begins with a Start: Wait is documented for use after Start or Run
@@ -170,6 +202,9 @@ func genC16(t *rapid.T) C16Case {
 		a := Action{Op: rapid.SampledFrom(ops).Draw(t, "op")}
 		if a.Op == "start" || a.Op == "restart" {
 			a.Script = genScript(t, h)
+		}
+		if a.Op == "bulkstop" || a.Op == "bulkdrop" {
+			genBulk(t, &a)
 		}
 		c.Actions = append(c.Actions, a)
 	}
@@ -235,6 +270,7 @@ type exec struct {
 	optOut   int   // failed sessions that dialled and whose notification is outstanding
 	optLost  int   // ... and was not seen within optionalCloseWait (it may still come, late)
 	waiters  []chan struct{}
+	bulks    []chan error // pending large UpdateContainers calls
 
 	// bookkeeping for evidence
 	hist    []step
@@ -362,8 +398,11 @@ func (x *exec) dial(string) (net.Conn, error) {
 		// the kernel's own error for a socket that is not there
 		return net.Dial("unix", filepath.Join(x.dir, "absent.sock"))
 	}
-	a, b, err := socketpair()
-	if err != nil {
+	var a, b net.Conn
+	var err error
+	if sc.Sync {
+		a, b = net.Pipe()
+	} else if a, b, err = socketpair(); err != nil {
 		x.infra(err)
 		return nil, err
 	}
@@ -401,14 +440,14 @@ func (x *exec) dial(string) (net.Conn, error) {
 			return nil, err
 		}
 	}
-	cutDir, k := -1, int64(0)
+	o := linkOpts{cutDir: -1, chunks: sc.Chunks}
 	if sc.Kind == "cut" {
-		cutDir, k = s2r, int64(sc.K)
+		o.cutDir, o.k, o.hold = s2r, int64(sc.K), time.Duration(sc.HoldMs)*time.Millisecond
 		if sc.Dir == "r2s" {
-			cutDir = r2s
+			o.cutDir = r2s
 		}
 	}
-	l := newLink(n, b, out, cutDir, k)
+	l := newLink(n, b, out, o)
 	x.mu.Lock()
 	x.links = append(x.links, l)
 	x.last = l
@@ -532,6 +571,15 @@ func (x *exec) doStart(sc Script) *failure {
 	desc := sc.Kind
 	if sc.Kind == "cut" {
 		desc = fmt.Sprintf("cut %s k=%d", sc.Dir, sc.K)
+		if sc.HoldMs > 0 {
+			desc += fmt.Sprintf(" hold=%dms", sc.HoldMs)
+		}
+	}
+	if sc.Sync && sc.Kind != "unreachable" {
+		desc += " over net.Pipe"
+	}
+	if len(sc.Chunks) > 0 && sc.Kind != "unreachable" {
+		desc += fmt.Sprintf(" chunks=%v", sc.Chunks)
 	}
 	if pan != "" {
 		x.rec("start", t0, "%s: PANIC %s", desc, pan)
@@ -559,6 +607,12 @@ func (x *exec) doStart(sc Script) *failure {
 	x.attempts++
 	if x.attempts >= 3 {
 		x.classes["sessions>=3"] = true
+	}
+	if sc.Sync && connected > 0 {
+		x.classes["sync:"+sc.Kind] = true
+		if sc.Kind == "cut" {
+			x.classes["sync:cut-"+sc.Dir] = true
+		}
 	}
 	if err == nil {
 		if x.cfgs.Load() == c0 {
@@ -677,6 +731,68 @@ func (x *exec) doDrop() *failure {
 	lk.shut("proxy")
 	x.rec("drop", t0, "")
 	return x.settleIdle("dropped connection")
+}
+
+// doBulk: the plugin sends a large unsolicited update from a goroutine of its own (as a
+// plugin reacting to an external event does); while that frame is being written - with
+// Stall the runtime end has stopped reading altogether - the stub is stopped, or the
+// connection is dropped. Judged like any Stop / connection loss.
+func (x *exec) doBulk(a Action) *failure {
+	t0 := time.Now()
+	stop := a.Op == "bulkstop"
+	if !x.up {
+		x.classes["bulk:idle"] = true
+		x.rec(a.Op, t0, "no session")
+		if stop {
+			if f := x.doStop(); f != nil {
+				return f
+			}
+			return x.settleIdle("Stop")
+		}
+		return nil
+	}
+	lk := x.cur
+	kb := a.KB
+	if kb < 1 {
+		kb = 1
+	}
+	if kb > 3500 { // ttRPC's message limit is 4 MiB
+		kb = 3500
+	}
+	x.classes[a.Op] = true
+	if a.Stall {
+		x.classes["bulk:stalled"] = true
+		lk.stall()
+	}
+	if kb >= 3000 {
+		x.classes["bulk:3MB"] = true
+	}
+	done := make(chan error, 1)
+	x.bulks = append(x.bulks, done)
+	go func() {
+		defer func() {
+			if p := recover(); p != nil {
+				done <- fmt.Errorf("panic: %v", p)
+			}
+		}()
+		_, err := x.st.UpdateContainers([]*api.ContainerUpdate{{ContainerId: strings.Repeat("x", kb<<10)}})
+		done <- err
+	}()
+	time.Sleep(time.Duration(a.WaitMs) * time.Millisecond)
+	x.rec(a.Op, t0, "UpdateContainers of %d KB under way (stalled=%v)", kb, a.Stall)
+	if stop {
+		f := x.doStop()
+		lk.unstall() // the runtime end comes back to life (and finds the connection closed)
+		if f != nil {
+			return f
+		}
+		return x.settleIdle("Stop during a large UpdateContainers")
+	}
+	x.estEnded++
+	x.faulted = true
+	x.up, x.cur = false, nil
+	lk.shut("proxy")
+	return x.settleIdle("connection dropped during a large UpdateContainers")
 }
 
 func (x *exec) doWait() *failure {
@@ -851,6 +967,18 @@ func (x *exec) settleIdle(why string) *failure {
 	if f := x.upperBound(why); f != nil {
 		return f
 	}
+	// the statement says nothing about an UpdateContainers call that was under way: noted only
+	for _, b := range x.bulks {
+		select {
+		case err := <-b:
+			if err != nil && strings.HasPrefix(err.Error(), "panic: ") {
+				return hard("UpdateContainers %s", err)
+			}
+		case <-time.After(slack):
+			x.lenient["update-call-still-pending-after-session-end"] = true
+		}
+	}
+	x.bulks = nil
 	if l := x.lastLink(); l != nil {
 		select {
 		case <-l.closedC:
@@ -919,6 +1047,8 @@ func (x *exec) doAction(a Action) *failure {
 		return x.doDrop()
 	case "probe":
 		return x.doProbe()
+	case "bulkstop", "bulkdrop":
+		return x.doBulk(a)
 	}
 	return nil // unknown op in a hand-written replay file: ignored
 }
